@@ -134,6 +134,7 @@ type c11Job struct {
 	tc     *topoCase
 	label  string
 	crash  *gen.CrashPoint
+	strace string // crash histories: kill injected by strace ("<syscalls>:<n>") instead of a hook crash point
 	target []string
 	del    []int // task indices whose outputs are deleted
 	cfg    Cfg
@@ -142,7 +143,7 @@ type c11Job struct {
 func c11(args []string) {
 	c := chk.New("C11", "fault_enumeration", args)
 	c.Build(false)
-	c.Rule("(a third of the commands carry printf-style verbs or JSON-escape look-alikes (\\u0026) in an argument, a quarter are indented multi-line strings) [a chain whose first step's valid output is an empty file and an 11-level ladder whose last audit file has 8190 ancestor records are among the workflows] histories that split an execution into several runs: RunTo(prefix) then Run; complete run, delete a downstream-closed set of outputs (with or without their audit files; the first run slow so that rewritten records are shorter), re-run; run killed at enumerated hook crash points, cleanup, resume; oracle: for every output the audit tree after the history equals the tree of an uninterrupted run of the same workflow (ids and times excluded), every embedded ancestor record is identical (ids included) to the ancestor's own .audit.json on disk, and loading every audit file through the library and writing it back loses nothing (in-process round trip in a copy of the directory); directed topologies with a directory output and with a gathering task that has an ordinary and a joined in-port (repeated, map order), with two differently tagged branches zipped by one process, and with a file that is tagged, processed and tagged again. distinct_nontrivial = distinct (workflow, history) in which >= 1 task was taken from disk and >= 1 task was executed in the last run")
+	c.Rule("(a third of the commands carry printf-style verbs or JSON-escape look-alikes (\\u0026) in an argument, a quarter are indented multi-line strings) [a chain whose first step's valid output is an empty file and an 11-level ladder whose last audit file has 8190 ancestor records are among the workflows] histories that split an execution into several runs: RunTo(prefix) then Run; complete run, delete a downstream-closed set of outputs (with or without their audit files; the first run slow so that rewritten records are shorter), re-run; run killed at enumerated hook crash points - and, under strace, before the n-th rename / unlink of any thread of the library -, cleanup, resume; oracle: for every output the audit tree after the history equals the tree of an uninterrupted run of the same workflow (ids and times excluded), every embedded ancestor record is identical (ids included) to the ancestor's own .audit.json on disk, and loading every audit file through the library and writing it back loses nothing (in-process round trip in a copy of the directory); directed topologies with a directory output and with a gathering task that has an ordinary and a joined in-port (repeated, map order), with two differently tagged branches zipped by one process, and with a file that is tagged, processed and tagged again. distinct_nontrivial = distinct (workflow, history) in which >= 1 task was taken from disk and >= 1 task was executed in the last run")
 	c.Assume("histories whose recovery does not converge (C03's known finding: kill between the renames of a multi-file task) are not judged here", "ids and absolute times of re-executed tasks are excluded from the comparison with the uninterrupted run")
 	rng := c.Rand("c11")
 	var jobs []*c11Job
@@ -285,6 +286,17 @@ func c11(args []string) {
 			tcs = append(tcs, topoCase{k, gen.ShapePlain, g, 3})
 		}
 	}
+	// kills between any two file-system mutations of the library itself: strace kills the thread that is about to make
+	// its n-th rename / unlink (no hook point needed; covers the instants inside the writing of an audit file)
+	for _, k := range []string{"tagzip", "tagtwice", "twoout", "chain"} {
+		for n := 1; n <= c.Pick(6, 20); n++ {
+			if !c.Thorough() && (k == "twoout" || k == "chain") && n%3 != 0 {
+				continue
+			}
+			tc := topoCase{k, gen.ShapePlain, n%4 == 3 && k != "tagzip", 2 + n%2}
+			jobs = append(jobs, &c11Job{kind: "crash", tc: &tc, strace: []string{"renameat,renameat2,rename", "unlinkat,unlink,renameat,rename"}[n%2] + ":" + fmt.Sprint(n), cfg: Cfg{Buf: 128, Procs: 2}, label: "killed before the n-th rename / unlink of a thread (strace), cleanup, resume"})
+		}
+	}
 	type dry struct{ points []gen.CrashPoint }
 	dries := make([]*dry, len(tcs))
 	run.Parallel(len(tcs), func(i int) {
@@ -333,7 +345,7 @@ func c11(args []string) {
 			}
 		}
 		exp := evalRef(s, nil)
-		desc := map[string]interface{}{"history": j.label, "spec": s, "cfg": j.cfg, "crash": j.crash, "runto": j.target}
+		desc := map[string]interface{}{"history": j.label, "spec": s, "cfg": j.cfg, "crash": j.crash, "strace_kill": j.strace, "runto": j.target}
 		// uninterrupted run
 		rr := execSpec(c, refRoot, s, Cfg{Buf: 128, Procs: 4}, nil, false, 0)
 		if rr.Exit != 0 || !rr.Returned {
@@ -434,7 +446,11 @@ func c11(args []string) {
 			lastStarts = len(mon.Index(r2.Trace).Starts)
 		case "crash":
 			cfg := j.cfg
-			cfg.Crash = j.crash.Env()
+			if j.strace != "" {
+				cfg.StraceKill = j.strace
+			} else {
+				cfg.Crash = j.crash.Env()
+			}
 			r1 := execSpec(c, root, s, cfg, nil, false, 0)
 			if r1.Signal == "" {
 				c.Count("faults_not_fired", 1)
